@@ -158,6 +158,18 @@ func (vc *VC) call(ins ssa.Instruction, c *ssa.CallCommon, v *ssa.Call) {
 			vc.havocAll()
 			continue
 		}
+		if m.Text == "pointees" { // whatever the pointer arguments (also boxed ones) point to
+			for _, a := range c.Args {
+				av := a
+				if mi, ok := a.(*ssa.MakeInterface); ok {
+					av = mi.X
+				}
+				if pt, ok := av.Type().Underlying().(*types.Pointer); ok {
+					vc.havocPointee(vc.val(av).S, pt.Elem())
+				}
+			}
+			continue
+		}
 		if err := vc.havocLvalue(env, m.Expr); err != nil {
 			vc.fail("call %s modifies %s: %v", shortKey(key), m.Text, err)
 		}
